@@ -42,11 +42,11 @@ class RTuple:
 class RMap:
     """HashMap contract model: association list; iteration order is a nondeterministic choice (Machine.hash_order), fixed for as long as the
     map is not modified (a real HashMap iterates a given table in the same order every time)"""
-    __slots__ = ('l', 'perm')
-    def __init__(self): self.l = []; self.perm = None
+    __slots__ = ('l', 'perm', 'sorted')
+    def __init__(self): self.l = []; self.perm = None; self.sorted = False
 class RSet:
-    __slots__ = ('l',)
-    def __init__(self): self.l = []
+    __slots__ = ('l', 'sorted')
+    def __init__(self): self.l = []; self.sorted = False
 class RIter:
     __slots__ = ('l', 'i', 'attr_iter')
     def __init__(self, l): self.l = list(l); self.i = 0; self.attr_iter = False
@@ -126,8 +126,10 @@ def s_same(a, b):
     return True
 
 # ---------------------------------------------------------------------------------------------- control signals
-class BreakEx(Exception): pass
-class ContinueEx(Exception): pass
+class BreakEx(Exception):
+    def __init__(self, label=None, value=None): self.label = label; self.value = value
+class ContinueEx(Exception):
+    def __init__(self, label=None): self.label = label
 class ReturnEx(Exception):
     def __init__(self, v): self.v = v
 class PanicEx(Exception):
@@ -141,6 +143,7 @@ class Inconclusive(Exception):
     """solver unknown, fuel exhausted ..."""
 class Infeasible(Exception): pass
 
+def NOTF(q): return (not q) if isinstance(q, bool) else z3.Not(q)
 class Env:
     __slots__ = ('v', 'parent')
     def __init__(self, parent=None): self.v = {}; self.parent = parent
@@ -164,7 +167,7 @@ class Env:
         raise KeyError(n)
     def define(self, n, val): self.v[n] = val
 
-BUILTIN_ENUMS = {'Option': ['Some', 'None'], 'Result': ['Ok', 'Err'],
+BUILTIN_ENUMS = {'Option': ['Some', 'None'], 'Result': ['Ok', 'Err'], 'Ordering': ['Less', 'Equal', 'Greater'],
                  'Event': ['Start', 'End', 'Empty', 'Text', 'CData', 'Comment', 'Decl', 'PI', 'DocType', 'Eof']}
 INT_WIDTH = {'u8': 8, 'u16': 16, 'u32': 32, 'u64': 64, 'usize': 64, 'i32': 32, 'i64': 64}
 
@@ -539,6 +542,24 @@ class Machine:
             return self.branch(self.eq(v, self.lit(p['lit'])))
         if k == 'por':
             return any(self.bind(c, v, env) for c in p['cases'])
+        if k == 'prest': return True
+        if k == 'prange':
+            lo = self.expr(p['start'], env) if p.get('start') else None; hi = self.expr(p['end'], env) if p.get('end') else None
+            ok = True
+            if lo is not None: ok = ok and self.branch(NOTF(self.lt(v, lo)))
+            if ok and hi is not None: ok = self.branch(self.lt(v, hi) if not p.get('inclusive') else NOTF(self.lt(hi, v)))
+            return ok
+        if k == 'pslice':
+            if not isinstance(v, RVec): raise Unsupported('slice pattern on %r' % (type(v),))
+            el = p['elems']; ri = [i for i, x in enumerate(el) if x['k'] == 'prest' or (x['k'] == 'pident' and x.get('sub') is not None and x['sub']['k'] == 'prest')]
+            if not ri:
+                return len(el) == len(v.l) and all(self.bind(pp, x, env) for pp, x in zip(el, v.l))
+            r = ri[0]; before = el[:r]; after = el[r + 1:]
+            if len(v.l) < len(before) + len(after): return False
+            if not all(self.bind(pp, x, env) for pp, x in zip(before, v.l[:len(before)])): return False
+            if after and not all(self.bind(pp, x, env) for pp, x in zip(after, v.l[len(v.l) - len(after):])): return False
+            if el[r]['k'] == 'pident': env.define(el[r]['name'], RVec(v.l[len(before):len(v.l) - len(after)]))
+            return True
         if k in ('ptuplestruct', 'ppath', 'pstruct'):
             variant = p['path'][-1]
             if isinstance(v, bool) or not isinstance(v, (REnum, RStruct)): raise Unsupported('enum pattern on %r' % (v,))
@@ -688,6 +709,13 @@ class Machine:
             if self.branch(l): return True
             return self.expr(e['r'], env)
         l = self.expr(e['l'], env)
+        if op in ('-=', '*=', '/=', '%=', '|=', '&='):
+            r = self.expr(e['r'], env)
+            if isinstance(l, (int, bool)) and isinstance(r, (int, bool)):
+                v = {'-=': lambda: l - r, '*=': lambda: l * r, '/=': lambda: l // r, '%=': lambda: l % r, '|=': lambda: (l or r) if isinstance(l, bool) else (l | r), '&=': lambda: (l and r) if isinstance(l, bool) else (l & r)}[op]()
+                if isinstance(v, int) and not isinstance(v, bool) and v < 0: raise PanicEx('attempt to subtract with overflow')
+                self.assign(e['l'], v, env); return UNIT
+            raise Unsupported('compound assignment %s on symbolic values' % op)
         if op == '+=':
             r = self.expr(e['r'], env)
             if isinstance(l, RStr):
@@ -710,6 +738,18 @@ class Machine:
         if op == '*':
             if isinstance(l, int) and isinstance(r, int): return l * r
             raise Unsupported('symbolic multiplication')
+        if op in ('%', '/'):
+            if isinstance(l, int) and isinstance(r, int):
+                if r == 0: raise PanicEx('attempt to divide by zero')
+                return l % r if op == '%' else l // r
+            raise Unsupported('symbolic division')
+        if op in ('&', '|', '^', '<<', '>>'):
+            if isinstance(l, bool) and isinstance(r, bool): return {'&': l and r, '|': l or r, '^': l != r}[op]
+            if isinstance(l, int) and isinstance(r, int): return {'&': l & r, '|': l | r, '^': l ^ r, '<<': (l << r) & ((1 << 64) - 1), '>>': l >> r}[op]
+            if z3.is_bool(l) or z3.is_bool(r):
+                zl = l if z3.is_expr(l) else z3.BoolVal(l); zr = r if z3.is_expr(r) else z3.BoolVal(r)
+                return {'&': z3.And(zl, zr), '|': z3.Or(zl, zr), '^': z3.Xor(zl, zr)}[op]
+            raise Unsupported('symbolic bit operation')
         if op == '<': return self.lt(l, r)
         if op == '>': return self.lt(r, l)
         if op == '<=':
@@ -759,12 +799,19 @@ class Machine:
                 if arm['guard'] is not None and not self.branch(self.expr(arm['guard'], ne)): continue
                 return self.expr(arm['body'], ne)
         raise Unsupported('no match arm applies at %s (value %r)' % (e['sp'], v))
+    def _mine(self, ex, e):
+        """does a break/continue signal address this loop? (unlabelled -> innermost loop; labelled -> the loop with that label)"""
+        return ex.label is None or ex.label == e.get('label')
     def e_loop(self, e, env):
         while True:
             self.tick()
             try: self.block(e['body'], env)
-            except BreakEx: return UNIT
-            except ContinueEx: continue
+            except BreakEx as b:
+                if not self._mine(b, e): raise
+                return b.value if b.value is not None else UNIT
+            except ContinueEx as c:
+                if not self._mine(c, e): raise
+                continue
     def e_while(self, e, env):
         while True:
             self.tick()
@@ -773,8 +820,12 @@ class Machine:
                 if not self.bind(c['pat'], self.expr(c['e'], env), ne): return UNIT
             elif not self.branch(self.expr(c, env)): return UNIT
             try: self.block(e['body'], ne)
-            except BreakEx: return UNIT
-            except ContinueEx: continue
+            except BreakEx as b:
+                if not self._mine(b, e): raise
+                return UNIT
+            except ContinueEx as c:
+                if not self._mine(c, e): raise
+                continue
     def iterate(self, v):
         if isinstance(v, RIter): return v.l[v.i:]
         if isinstance(v, RVec): return list(v.l)
@@ -790,13 +841,16 @@ class Machine:
             ne = Env(env)
             if not self.bind(e['pat'], x, ne): raise PanicEx('for pattern')
             try: self.block(e['body'], ne)
-            except BreakEx: break
-            except ContinueEx: continue
+            except BreakEx as b:
+                if not self._mine(b, e): raise
+                break
+            except ContinueEx as c:
+                if not self._mine(c, e): raise
+                continue
         return UNIT
     def e_break(self, e, env):
-        if e['e'] is not None: raise Unsupported('break with value')
-        raise BreakEx()
-    def e_continue(self, e, env): raise ContinueEx()
+        raise BreakEx(e.get('label'), self.expr(e['e'], env) if e['e'] is not None else None)
+    def e_continue(self, e, env): raise ContinueEx(e.get('label'))
     def e_return(self, e, env): raise ReturnEx(self.expr(e['e'], env) if e['e'] is not None else UNIT)
     def e_try(self, e, env):
         v = self.expr(e['e'], env)
@@ -822,6 +876,11 @@ class Machine:
         for fl in e['fields']: f[fl['name']] = self.expr(fl['e'], env)
         return RStruct(name, f)
     # ------------------------------------------------------------------------------------------ macros / formatting
+    def e_matches(self, e, env):
+        v = self.expr(e['e'], env); ne = Env(env)
+        if not self.bind(e['pat'], v, ne): return False
+        if e.get('guard') is not None: return self.branch(self.expr(e['guard'], ne))
+        return True
     def e_macro_raw(self, e, env): raise Unsupported('macro %s with unparsed arguments at %s' % (e['name'], e['sp']))
     def e_macro(self, e, env):
         n = e['name'].split('::')[-1]
@@ -847,6 +906,8 @@ class Machine:
             if n == 'assert_ne': q = (not q) if isinstance(q, bool) else z3.Not(q)
             if not self.branch(q): raise PanicEx('assertion failed')
             return UNIT
+        if n == 'matches':
+            raise Unsupported('matches! (pattern argument is not an expression)')
         if n == 'debug_assert':
             if not self.release and not self.branch(self.expr(e['args'][0], env)): raise PanicEx('debug assertion failed')
             return UNIT
@@ -947,7 +1008,7 @@ def _args_parse(m):
     return f(m)
 BUILTIN_FNS = {
     ('Vec', 'with_capacity'): lambda m, n: RVec(), ('String', 'with_capacity'): lambda m, n: RStr(''), ('HashMap', 'with_capacity'): lambda m, n: RMap(), ('HashSet', 'with_capacity'): lambda m, n: RSet(),
-    ('VecDeque', 'with_capacity'): lambda m, n: RVec(), ('Vec', 'from'): lambda m, v: RVec(list(m.iterate(v))), ('Some', 'x'): None,
+    ('VecDeque', 'with_capacity'): lambda m, n: RVec(), ('Vec', 'from'): lambda m, v: RVec(list(m.iterate(v))),
     ('Vec', 'new'): lambda m: RVec(), ('String', 'new'): lambda m: RStr(''), ('HashMap', 'new'): lambda m: RMap(), ('HashSet', 'new'): lambda m: RSet(),
     ('String', 'from'): lambda m, s: RStr(s.val if isinstance(s, RStr) else s), ('String', 'from_utf8'): _string_from_utf8,
     ('String', 'from_utf8_lossy'): lambda m, b: RStr(b.val),          # invalid sequences become U+FFFD: never an error (the replaced content is not modelled)
@@ -955,6 +1016,9 @@ BUILTIN_FNS = {
     ('mem', 'discriminant'): lambda m, v: RDisc(v.enum, v.variant), ('VecDeque', 'new'): lambda m: RVec(),
     ('process', 'exit'): _exit, ('fs', 'read_to_string'): _read_to_string, ('File', 'create'): _file_create,
     ('Reader', 'from_str'): _reader_from_str, ('Reader', 'from_file'): _reader_from_file, ('Args', 'parse'): _args_parse,
+    ('mem', 'swap'): lambda m, a, b: _mem_swap(m, a, b), ('mem', 'replace'): lambda m, a, b: _mem_replace(m, a, b),
+    ('cmp', 'min'): lambda m, a, b: b if m.branch(m.lt(b, a)) else a, ('cmp', 'max'): lambda m, a, b: a if m.branch(m.lt(b, a)) else b,
+    ('BTreeMap', 'new'): lambda m: _btree(RMap()), ('BTreeSet', 'new'): lambda m: _btree(RSet()),
     ('env_logger', 'init'): lambda m: UNIT, ('mem', 'drop'): lambda m, v: UNIT, ('mem', 'take'): lambda m, v: (_ for _ in ()).throw(Unsupported('mem::take')),
     ('OnceCell', 'new'): lambda m: RStruct('OnceCell', {'v': NONE()}), ('OnceLock', 'new'): lambda m: RStruct('OnceCell', {'v': NONE()}),
     ('RefCell', 'new'): lambda m, v: RStruct('RefCell', {'v': v}), ('Cell', 'new'): lambda m, v: RStruct('RefCell', {'v': v}),
@@ -993,10 +1057,21 @@ def _perm_choice(m, n):
             perms.append(tuple(rot)); perms.append(tuple(reversed(rot)))
         m.partial_orders = True
     return list(perms[m.choose(len(perms))])
+def _sorted_idx(m, keys):
+    idx = []
+    for i, k in enumerate(keys):
+        pos = len(idx)
+        for j, o in enumerate(idx):
+            if m.branch(m.lt(k, keys[o])): pos = j; break
+        idx.insert(pos, i)
+    return idx
 def _map_iter(m, mp):
+    if getattr(mp, 'sorted', False):          # BTreeMap: key order
+        return RIter([RTuple([mp.l[i][0], mp.l[i][1]]) for i in _sorted_idx(m, [e[0] for e in mp.l])])
     if mp.perm is None or len(mp.perm) != len(mp.l): mp.perm = _perm_choice(m, len(mp.l))
     return RIter([RTuple([mp.l[i][0], mp.l[i][1]]) for i in mp.perm])
 def _set_iter(m, st):
+    if getattr(st, 'sorted', False): return RIter([st.l[i] for i in _sorted_idx(m, st.l)])
     p = _perm_choice(m, len(st.l))
     return RIter([st.l[i] for i in p])
 def _map_get(m, mp, k):
@@ -1148,6 +1223,25 @@ def _str_pop(m, s_):
     v = m.cs(s_)
     if not v: return NONE()
     s_.val = v[:-1]; return Some(v[-1])
+def _btree(x): x.sorted = True; return x
+def _mem_swap(m, a, b):
+    tmp = deep(a); m.overwrite(a, b if not isinstance(b, (RStr, RVec, RStruct, REnum)) else deep(b)); m.overwrite(b, tmp); return UNIT
+def _mem_replace(m, a, b):
+    old = deep(a); m.overwrite(a, b); return old
+def _cmp(m, a, b):
+    if m.branch(m.lt(a, b)): return REnum('Ordering', 'Less', [])
+    if m.branch(m.eq(a, b)): return REnum('Ordering', 'Equal', [])
+    return REnum('Ordering', 'Greater', [])
+def _sort_by(m, v, f):
+    """sort_by / sort_unstable_by with a comparator closure returning Ordering (insertion sort; ties of the unstable variant keep insertion order here)"""
+    out = []
+    for x in v.l:
+        pos = len(out)
+        for i, y in enumerate(out):
+            o = m.call_value(f, [x, y])
+            if o.variant == 'Less': pos = i; break
+        out.insert(pos, x)
+    v.l[:] = out; return UNIT
 def _once_get_or_init(m, c, f):
     if c.f['v'].variant == 'None': c.f['v'] = Some(m.call_value(f, []))
     return c.f['v'].p[0]
@@ -1280,6 +1374,31 @@ BUILTIN_METHODS = {
     ('RVec', 'append'): lambda m, v, o: (v.l.extend(o.l), o.l.clear(), UNIT)[2],
     ('RVec', 'as_slice'): lambda m, v: v, ('RVec', 'as_ref'): lambda m, v: v, ('RVec', 'as_mut_slice'): lambda m, v: v,
     ('RVec', 'swap_remove'): lambda m, v, i: _swap_remove(m, v, i), ('RStr', 'into_owned'): lambda m, s: RStr(s.val), ('RStr', 'to_vec'): lambda m, s: RBytes(s.val, True),
+    ('RVec', 'sort_by'): _sort_by, ('RVec', 'sort_unstable_by'): _sort_by, ('RVec', 'binary_search'): lambda m, v, x: (_ for _ in ()).throw(Unsupported('binary_search')),
+    ('RStr', 'cmp'): _cmp, ('int', 'cmp'): _cmp, ('Option', 'cmp'): _cmp, ('RStr', 'partial_cmp'): lambda m, a, b: Some(_cmp(m, a, b)), ('int', 'partial_cmp'): lambda m, a, b: Some(_cmp(m, a, b)),
+    ('Ordering', 'reverse'): lambda m, o: REnum('Ordering', {'Less': 'Greater', 'Greater': 'Less', 'Equal': 'Equal'}[o.variant], []),
+    ('Ordering', 'then'): lambda m, o, o2: o if o.variant != 'Equal' else o2, ('Ordering', 'then_with'): lambda m, o, f: o if o.variant != 'Equal' else m.call_value(f, []),
+    ('Ordering', 'is_lt'): lambda m, o: o.variant == 'Less', ('Ordering', 'is_gt'): lambda m, o: o.variant == 'Greater', ('Ordering', 'is_eq'): lambda m, o: o.variant == 'Equal',
+    ('Ordering', 'is_le'): lambda m, o: o.variant != 'Greater', ('Ordering', 'is_ge'): lambda m, o: o.variant != 'Less', ('Ordering', 'is_ne'): lambda m, o: o.variant != 'Equal',
+    ('int', 'saturating_add'): lambda m, a, b: min(a + b, (1 << 64) - 1), ('int', 'wrapping_add'): lambda m, a, b: (a + b) & ((1 << 64) - 1), ('int', 'wrapping_sub'): lambda m, a, b: (a - b) & ((1 << 64) - 1),
+    ('int', 'checked_add'): lambda m, a, b: Some(a + b), ('int', 'checked_sub'): lambda m, a, b: Some(a - b) if a >= b else NONE(), ('int', 'abs_diff'): lambda m, a, b: abs(a - b),
+    ('int', 'pow'): lambda m, a, b: a ** b, ('int', 'is_power_of_two'): lambda m, a: a > 0 and a & (a - 1) == 0,
+    ('Option', 'replace'): lambda m, o, v: (REnum('Option', o.variant, list(o.p)), setattr(o, 'variant', 'Some'), setattr(o, 'p', [v]))[0],
+    ('Option', 'insert'): lambda m, o, v: (setattr(o, 'variant', 'Some'), setattr(o, 'p', [v]), v)[2],
+    ('Option', 'get_or_insert_with'): lambda m, o, f: o.p[0] if o.variant == 'Some' else (setattr(o, 'variant', 'Some'), setattr(o, 'p', [m.call_value(f, [])]), o.p[0])[2],
+    ('Option', 'xor'): lambda m, a, b: a if (a.variant == 'Some' and b.variant == 'None') else (b if (b.variant == 'Some' and a.variant == 'None') else NONE()),
+    ('Option', 'zip'): lambda m, a, b: Some(RTuple([a.p[0], b.p[0]])) if (a.variant == 'Some' and b.variant == 'Some') else NONE(),
+    ('Option', 'flatten'): lambda m, o: o.p[0] if o.variant == 'Some' else o, ('Option', 'unwrap_unchecked'): _unwrap,
+    ('Result', 'unwrap_err'): lambda m, o: o.p[0] if o.variant == 'Err' else (_ for _ in ()).throw(PanicEx('unwrap_err on Ok')), ('Result', 'err'): lambda m, o: Some(o.p[0]) if o.variant == 'Err' else NONE(),
+    ('Result', 'or_else'): lambda m, o, f: o if o.variant == 'Ok' else m.call_value(f, [o.p[0]]), ('Result', 'unwrap_or_default'): lambda m, o: o.p[0] if o.variant == 'Ok' else (_ for _ in ()).throw(Unsupported('unwrap_or_default')),
+    ('RIter', 'rposition'): lambda m, it, f: (lambda xs: next((Some(i) for i in range(len(xs) - 1, -1, -1) if m.branch(m.call_value(f, [xs[i]]))), NONE()))(it.l[it.i:]),
+    ('RIter', 'find_map'): lambda m, it, f: next((r for r in (m.call_value(f, [x]) for x in it.l[it.i:]) if r.variant == 'Some'), NONE()),
+    ('RIter', 'step_by'): lambda m, it, n: RIter(it.l[it.i::n]), ('RIter', 'unzip'): lambda m, it: RTuple([RVec([t.l[0] for t in it.l[it.i:]]), RVec([t.l[1] for t in it.l[it.i:]])]),
+    ('RIter', 'partition'): lambda m, it, f: (lambda xs, fl: RTuple([RVec([x for x, b in zip(xs, fl) if b]), RVec([x for x, b in zip(xs, fl) if not b])]))(it.l[it.i:], [m.branch(m.call_value(f, [x])) for x in it.l[it.i:]]),
+    ('RIter', 'inspect'): lambda m, it, f: ([m.call_value(f, [x]) for x in it.l[it.i:]], it)[1],
+    ('RVec', 'windows'): lambda m, v, n: RIter([RVec(v.l[i:i + n]) for i in range(0, len(v.l) - n + 1)]), ('RVec', 'chunks'): lambda m, v, n: RIter([RVec(v.l[i:i + n]) for i in range(0, len(v.l), n)]),
+    ('RVec', 'concat'): lambda m, v: RVec([y for x in v.l for y in x.l]) if all(isinstance(x, RVec) for x in v.l) else RStr(s_norm([p for x in v.l for p in s_parts(x.val)])),
+    ('RVec', 'starts_with'): lambda m, v, o: len(o.l) <= len(v.l) and m.all_eq(v.l[:len(o.l)], o.l), ('RVec', 'ends_with'): lambda m, v, o: len(o.l) <= len(v.l) and m.all_eq(v.l[len(v.l) - len(o.l):], o.l),
     ('RVec', 'dedup'): _dedup, ('RVec', 'retain'): _retain, ('RVec', 'truncate'): _truncate, ('RVec', 'swap'): _swap,
     ('RVec', 'extend_from_slice'): lambda m, v, o: (v.l.extend(deep(x) for x in o.l), UNIT)[1],
     ('RVec', 'first_mut'): lambda m, v: Some(v.l[0]) if v.l else NONE(), ('RVec', 'last_mut'): lambda m, v: Some(v.l[-1]) if v.l else NONE(),
